@@ -73,6 +73,16 @@ func ksReadReq(doc []byte, pw []byte, extra map[string]any) map[string]any {
 func externalV3(r *Rng, kdf string, pw, key []byte, n, rr, p, c int) []byte {
 	salt := r.Bytes(Pick(r, []int{32, 32, 16, 8}))
 	iv := r.Bytes(16)
+	switch r.Intn(6) {
+	case 0: // the counter carries out of its low 64 bits at the second block
+		for k := 8; k < 16; k++ {
+			iv[k] = 0xff
+		}
+	case 1: // ... out of the low 32 bits, or all the way round
+		for k := Pick(r, []int{12, 0}); k < 16; k++ {
+			iv[k] = 0xff
+		}
+	}
 	var dk []byte
 	var kdfparams map[string]any
 	if kdf == "scrypt" {
@@ -193,6 +203,11 @@ func init() {
 				wf.Metadata()["nested"] = map[string]any{"a": []any{1, "b"}}
 				wf.Metadata()["id"] = "not-overridable"
 				wf.Metadata()["dropped"] = nil
+				// values that are the zero value of their kind are values all the same
+				wf.Metadata()["zeroInt"] = 0
+				wf.Metadata()["flagFalse"] = false
+				wf.Metadata()["emptyStr"] = ""
+				wf.Metadata()["emptyList"] = []any{}
 				doc := wf.JSON()
 				f := describeKsFile(doc)
 				c.Add(map[string]any{"op": "ks.create", "doc": string(doc), "password": hx([]byte(pw)), "key": hx(key), "salt": f["salt"], "iv": f["iv"], "n": n, "p": 1,
@@ -489,7 +504,12 @@ func ksImpl(req map[string]any) any {
 		out := map[string]any{"key": hx(wf.PrivateKey())}
 		if req["checkMeta"] == true {
 			md := wf.Metadata()
-			out["metaOK"] = md["extra1"] == "value1" && md["nested"] != nil && md["dropped"] == nil && md["id"] != "not-overridable" && wf.GetID() != nil && wf.GetVersion() == 3
+			zi, hasZI := md["zeroInt"]
+			ff, hasFF := md["flagFalse"]
+			es, hasES := md["emptyStr"]
+			_, hasEL := md["emptyList"]
+			zeroOK := hasZI && fmt.Sprint(zi) == "0" && hasFF && ff == false && hasES && es == "" && hasEL
+			out["metaOK"] = md["extra1"] == "value1" && md["nested"] != nil && md["dropped"] == nil && md["id"] != "not-overridable" && wf.GetID() != nil && wf.GetVersion() == 3 && zeroOK
 		}
 		return ok(out)
 	}
